@@ -124,6 +124,9 @@ def run(rep, tier, seed, rng):
         elif kind == "select": c["select"] = [("?" if rng.random() < 0.3 else "") + rng.choice(names) for _ in range(rng.randint(1, 3))]
         elif kind == "disable": c["disable"] = [rng.choice(names) for _ in range(rng.randint(1, 2))]
         else: c["define"] = [rng.choice(["CFLAGS", "X", "LIBS", "NEWVAR"]) + rng.choice(["=", "+="]) + rng.choice(["d1", "d 2", "${X}", "", "é", "-Wl,-Map=app.map", "a,b,c", "k=v", "x+=y", ",", "--opt=1,2", "two  blanks", " lead", "trail ", "G=\"hello world\"", "user,id=net0,fwd=tcp::1-:2", "A=1,B=2", "v,netdev+=n0"]) for _ in range(rng.randint(1, 3))]
+        if kind == "define" and rng.random() < 0.3:
+            # the same variable assigned and then appended to on one command line (the -D list is folded into one env first)
+            v = rng.choice(["CFLAGS", "X", "LIBS"]); c["define"] = [v + "=" + rng.choice(["d1", "", "a b"]), v + "+=" + rng.choice(["d2", "-g"])] + ([v + "+=d3"] if rng.random() < 0.3 else [])
         base.append((f, c, kind))
     pairs = []
     for f, c, kind in base:
